@@ -45,6 +45,12 @@ CLAIMED["C05"] = dict(
     note="Trusted: the fault table transcribed from the book and the property statement; dv-probe (a thin JSON wrapper over hir::TypeContext::from_syn). Rules on which the docs are silent are not asserted.",
     ref="DESIGN.md §2 C05")
 
+CLAIMED["C06"] = dict(
+    engine="P", technique="grammar-based program generation (Hypothesis) with a differential oracle: nm of the compiled proc-macro output vs symbols parsed from each backend's output vs a reference naming model",
+    text="For generated programs with random abi_rename/rename/disable placement: the symbols exported by the crate compiled with the real proc macro must equal the documented naming model, and for each of the seven backends the set of symbols declared and the set called in the generated code must both equal the model's enabled methods plus opaque destructors. Exploration.",
+    note="Trusted: the per-backend symbol extractors (regular expressions over generated text, validated on feature_tests output) and the naming model transcribed from book/src/abi.md.",
+    ref="DESIGN.md §2 C06")
+
 TODO_REASON = "check not built yet in this revision of /verif (planned, see DESIGN.md §2); not claimed until it is silent on the unchanged tree and kills its mutants"
 
 ALL = ["C%02d" % i for i in range(1, 18)]
